@@ -5,6 +5,9 @@
 (* EVERY database with <= MaxRows rows per table over {0, 1 (, NULL)} TLC  *)
 (* steps through the databases (action NextDb) counting those on which the *)
 (* offered row filters lose data; Scoped / ColumnsComplete are judged once. *)
+(* Families: predicates of every shape up to the depth bound in where /    *)
+(* join conditions, negations of compound predicates (depth 3), self joins *)
+(* through references, nested statements, three tables.                    *)
 (* The verdict of every statement is exported (invariant Export); clauses  *)
 (* violated by the as-is model are design-level findings which the driver  *)
 (* replays on the real parser (TraceHints.tla judges the recorded hints).   *)
@@ -42,6 +45,10 @@ Eq(a, b) == Op("eq", <<a, b>>)
 Lt(a, b) == Op("lt", <<a, b>>)
 AtomsAB == {Eq(Ax, L1), Eq(Bx, L1), Eq(Ax, Bx), Lt(Ax, Bx), Op("isnull", <<Bx>>), Eq(Ay, L0)}
 AtomsSmall == {Eq(Ax, L1), Eq(Bx, L1), Lt(Ax, Bx)}
+\* negation over COMPOUND operands (nesting depth 3): Not(p o q), p and q atoms or and / or of two different atoms -
+\* conjunctions / disjunctions below the negation that span both tables, share a table, or stay inside one
+Compound(atoms) == atoms \cup {Op(o, <<ab[1], ab[2]>>) : o \in {"and", "or"}, ab \in {x \in atoms \X atoms : x[1] # x[2]}}
+Negated(atoms) == {Op("not", <<Op(o, <<p, q>>)>>) : o \in {"and", "or"}, p \in Compound(atoms), q \in Compound(atoms)}
 Kinds == {"inner", "left", "right", "full"}
 All(l) == QueryOf(l, <<>>, NilF, <<>>, NilF, <<>>, <<>>)
 Where(l, w) == QueryOf(l, <<>>, w, <<>>, NilF, <<>>, <<>>)
@@ -62,6 +69,12 @@ Stmts ==
            {Where(JoinOf(TA, TB, k, Lt(Ax, Bx)), w) : k \in {"inner", "left", "full"}, w \in Preds(AtomsSmall, Depth)}
       [] Family = "onsmall" ->
            {SelWhere(JoinOf(TA, TB, k, c), <<Ay, Bx>>, NilF) : k \in {"inner", "left", "full"}, c \in Preds(AtomsSmall, Depth)}
+      [] Family = "negwhere" ->    \* negated compound predicates in the where clause (the origin leaves both tables free)
+           {Where(JoinOf(TA, TB, "cross", NilF), w) : w \in Negated(AtomsSmall)}
+      [] Family = "negwide" ->     \* ... over one more atom: two atoms of A, so that a shared table has a proper disjunction
+           {Where(JoinOf(TA, TB, "cross", NilF), w) : w \in Negated(AtomsSmall \cup {Eq(Ay, L0)})}
+      [] Family = "negon" ->       \* ... as the join condition
+           {SelWhere(JoinOf(TA, TB, k, c), <<Ay, Bx>>, NilF) : k \in {"inner", "left"}, c \in Negated(AtomsSmall)}
       [] Family = "self" ->        \* self join through a reference, nested statement as an origin
            {SelWhere(JoinOf(TA, RA, k, c), <<Ax, Rx>>, w) :
                 k \in {"inner", "left"}, c \in {Lt(Ax, Rx), Eq(Ay, Col(RA, "y"))},
